@@ -30,9 +30,18 @@ def _scenario(rng, interval, timeout):
     events.sort(key=lambda e: e[-1])
     end = t0 + n * interval + rng.choice([1, timeout + 7, 2 * timeout + 3])
     events = [e for e in events if e[-1] < end]
-    if rng.random() < 0.1:
+    r = rng.random()
+    if r < 0.1:
         s = rng.randint(t0 + 1, end - 1)
         events = [e for e in events if e[-1] < s] + [("stop", s)]
+    elif r < 0.25:
+        # stop and start again (shutdown followed by a later init): monitoring must work as on a fresh manager
+        s = rng.randint(t0 + 1, end - 2)
+        s2 = s + rng.choice([1, 7, interval])
+        events = [e for e in events if e[-1] < s] + [("stop", s), ("start", s2)]
+        if rng.random() < 0.5:
+            events.append(("resp", s2 + 2))
+        end = s2 + 2 * timeout + 9
     ins += events + [("finish", end)]
     # drop events that coincide with a deadline/beat instant of an idealised run (ordering at equal times is unspecified)
     return ins
@@ -44,6 +53,7 @@ def _fixed(interval, timeout):
     out.append([("conn", 1, 0), ("start", 0), ("resp", 2), ("finish", 3 * timeout + 50)])          # silent after a response
     out.append([("conn", 1, 0), ("start", 5)] + [("resp", 5 + k * interval + 3) for k in range(6)] + [("finish", 5 + 6 * interval)])
     out.append([("conn", 0, 0), ("start", 0), ("conn", 1, timeout + 10), ("finish", 3 * timeout)])   # down at the first expiry
+    out.append([("conn", 1, 0), ("start", 0), ("resp", 3), ("stop", 50), ("start", 60), ("finish", 60 + 2 * timeout + 5)])   # restart
     for d in (-1, 1):
         out.append([("conn", 1, 0), ("start", 0), ("resp", 1), ("resp", 1 + timeout + d), ("finish", 2 * timeout + interval)])
     return out
